@@ -622,8 +622,8 @@ public:
     else
       size = v1.size();
 
-    T x = v2[0] * v1[0];
-    for (size_t i = 1; i < size; i++)
+    T x = 0;
+    for (size_t i = 0; i < size; i++)
     {
       x += v2[i] * v1[i];
     }
